@@ -3,6 +3,7 @@ C06 — Each result faithfully describes its HTTP exchange.
 Property theorems about the model `Vegeta.Model.Hit` (helper lemmas are named `aux_*`).
 -/
 import Vegeta.Model.Hit
+import Vegeta.Extracted.Facts
 namespace Vegeta.Props.C06
 open Vegeta.Go Vegeta.Model.Hit
 
@@ -858,5 +859,313 @@ example : (hit witnessTarget witnessUrl { witnessCfg with maxBody := 2 } 7 sampl
     (hit witnessTarget witnessUrl { witnessCfg with maxBody := 2 } 7 sampleExchange).res.error = [52, 48, 52] ∧
     (hit witnessTarget witnessUrl { witnessCfg with maxBody := 2 } 7 sampleExchange).bodyLog =
       [.read 2, .read 1, .read 2, .eof, .close] := by decide
+
+/-! ### the redirect policy, for every limit and every chain length -/
+
+/-- what `client.Do` returns when no (further) redirect is in the way -/
+def finalResult : Final → DoResult
+  | .transportErr t => .err t
+  | .response r => .resp r
+
+theorem aux_clientDo_nil (policy : Option Int) (via : Nat) (fin : Final) :
+    clientDo policy via [] fin = finalResult fin := by
+  cases fin <;> rfl
+
+/-- `Redirects(n)`, for EVERY integer `n` and every chain of redirect responses (net/http calls
+`CheckRedirect` with `len(via)` = number of requests made so far, 1 at the first redirect):
+* no redirect: the transport's final answer;
+* `n = NoFollow` (-1): the first redirect response is the result;
+* `n ≥ 0`: a chain of at most `n` redirects is followed to the final answer, a longer one fails at
+  its `(n+1)`-th response with "stopped after n redirects";
+* `n < -1`: the first redirect already fails (with "stopped after n redirects", n negative). -/
+theorem redirect_outcome (n : Int) (hops : List Hop) (fin : Final) :
+    (hops = [] → clientDo (some n) 1 hops fin = finalResult fin) ∧
+    (n = noFollow → ∀ h hs, hops = h :: hs → clientDo (some n) 1 hops fin = .resp h.resp) ∧
+    (0 ≤ n → (hops.length : Int) ≤ n → clientDo (some n) 1 hops fin = finalResult fin) ∧
+    (0 ≤ n → ∀ h, hops[n.toNat]? = some h → clientDo (some n) 1 hops fin = .err (h.stopPrefix ++ stoppedText n)) ∧
+    (n < noFollow → ∀ h hs, hops = h :: hs → clientDo (some n) 1 hops fin = .err (h.stopPrefix ++ stoppedText n)) := by
+  refine ⟨?_, ?_, ?_, ?_, ?_⟩
+  · intro h; subst h; exact aux_clientDo_nil _ _ _
+  · intro hn h hs hh; subst hn; subst hh; exact redirect_nofollow_returns_first_response h hs fin 1
+  · intro h0 hl
+    obtain ⟨m, hm⟩ := Int.eq_ofNat_of_zero_le h0
+    subst hm
+    rw [(redirect_limit m hops fin).1 (by omega)]
+    exact aux_clientDo_nil _ _ _
+  · intro h0 h hh
+    obtain ⟨m, hm⟩ := Int.eq_ofNat_of_zero_le h0
+    subst hm
+    exact (redirect_limit m hops fin).2 h (by simpa using hh)
+  · intro hn h hs hh; subst hh
+    unfold clientDo
+    have h1 : n ≠ noFollow := by unfold noFollow at *; omega
+    have h2 : n < ((1 : Nat) : Int) := by unfold noFollow at hn; omega
+    simp only [checkRedirect, if_neg h1, if_pos h2]
+
+theorem aux_default_follow : ∀ (hops : List Hop) (via : Nat) (fin : Final), 1 ≤ via → via ≤ 10 →
+    (hops.length ≤ 10 - via → clientDo none via hops fin = finalResult fin) ∧
+    (∀ h, hops[10 - via]? = some h → clientDo none via hops fin = .err (h.stopPrefix ++ stoppedText 10)) := by
+  intro hops
+  induction hops with
+  | nil => intro via fin _ _; exact ⟨fun _ => aux_clientDo_nil _ _ _, by simp⟩
+  | cons a r ih =>
+    intro via fin h1 h2
+    by_cases hv : via = 10
+    · subst hv
+      constructor
+      · intro hl; simp at hl
+      · intro h hh
+        simp at hh; subst hh
+        unfold clientDo; simp [defaultCheckRedirect]
+    · have hstep : clientDo none via (a :: r) fin = clientDo none (via + 1) r fin := by
+        rw [clientDo]
+        have : defaultCheckRedirect via = .follow := by unfold defaultCheckRedirect; rw [if_neg (by omega)]
+        simp only [this]
+      obtain ⟨i1, i2⟩ := ih (via + 1) fin (by omega) (by omega)
+      rw [hstep]
+      constructor
+      · intro hl; exact i1 (by simp at hl; omega)
+      · intro h hh
+        apply i2 h
+        have : 10 - via = (10 - (via + 1)) + 1 := by omega
+        rw [this] at hh; simpa using hh
+
+/-- Without the `Redirects` option net/http's own policy applies, which stops when
+`len(via) >= 10`: it follows only NINE redirects — one fewer than `Redirects(10)`, although both
+fail with the text "stopped after 10 redirects". (The command always applies `Redirects`.) -/
+theorem redirect_default_policy (hops : List Hop) (fin : Final) :
+    (hops.length ≤ 9 → clientDo none 1 hops fin = finalResult fin) ∧
+    (∀ h, hops[9]? = some h → clientDo none 1 hops fin = .err (h.stopPrefix ++ stoppedText 10)) := by
+  obtain ⟨h1, h2⟩ := aux_default_follow hops 1 fin (by omega) (by omega)
+  exact ⟨fun hl => h1 (by omega), fun h hh => h2 h (by simpa using hh)⟩
+
+/-- the difference in one line: a chain of exactly ten redirects -/
+example (hops : List Hop) (fin : Final) (h : hops.length = 10) :
+    clientDo (some 10) 1 hops fin = finalResult fin ∧ ∃ t, clientDo none 1 hops fin = .err t := by
+  refine ⟨(redirect_outcome 10 hops fin).2.2.1 (by omega) (by omega), ?_⟩
+  have hl : 9 < hops.length := by omega
+  exact ⟨_, (redirect_default_policy hops fin).2 hops[9] (List.getElem?_eq_getElem hl)⟩
+
+/-- "a chain of at most n redirects ends in the final response": with `Redirects(n)`, `n ≥ 0`, at
+most `n` redirect hops, and a final response whose body ends with EOF, the exchange is
+`Completed` with that final response — so the result carries its code, headers, max-body prefix
+and byte counts, and an empty error iff the code is 2xx/3xx (the theorems above). -/
+theorem redirect_chain_within_limit_completes (t : Target) (u : UrlInfo) (cfg : Cfg) (ex : Exchange) (n : Int) (r : Resp)
+    (req0 : RequestSeen) (hreq : request t u = .ok req0) (hcfg : cfg.redirects = some n) (h0 : 0 ≤ n)
+    (hl : (ex.hops.length : Int) ≤ n) (hfin : ex.final = .response r) (hbody : r.failAfter = none) :
+    Completed t u cfg ex r := by
+  refine ⟨⟨req0, hreq⟩, ?_, hbody⟩
+  rw [hcfg, (redirect_outcome n ex.hops ex.final).2.2.1 h0 hl, hfin]; rfl
+
+/-- "n+1 hops fails": a chain longer than the limit makes the exchange `Failed` (non-empty
+error, never a success code, by `failed_has_error_and_no_success_code`), and `hit` never sees
+a response body. -/
+theorem redirect_chain_beyond_limit_fails (t : Target) (u : UrlInfo) (cfg : Cfg) (seq : Nat) (ex : Exchange) (n : Int)
+    (hcfg : cfg.redirects = some n) (h0 : 0 ≤ n) (hl : n < (ex.hops.length : Int)) :
+    Failed t u cfg ex ∧ ((hit t u cfg seq ex).obtained = false) := by
+  have hlt : n.toNat < ex.hops.length := by omega
+  have hdo := (redirect_outcome n ex.hops ex.final).2.2.2.1 h0 ex.hops[n.toNat] (List.getElem?_eq_getElem hlt)
+  rw [← hcfg] at hdo
+  refine ⟨Or.inr (Or.inl ⟨_, hdo⟩), ?_⟩
+  cases pathOf t u cfg ex with
+  | reqError e h => rw [aux_hit_req_error t u cfg seq ex e h]
+  | doError req0 text h hd => rw [aux_hit_do_error t u cfg seq ex req0 text h hd]
+  | response req0 r h hd => rw [hdo] at hd; cases hd
+
+/-- the command's default (`-redirects` not given: `Redirects(10)` IS applied): ten redirects are
+followed, the eleventh fails -/
+theorem cli_default_follows_ten (f : AttackFlags) (hf : f.redirects = 10) (hops : List Hop) (fin : Final) :
+    (hops.length ≤ 10 → clientDo (cmdCfg f).redirects 1 hops fin = finalResult fin) ∧
+    (∀ h, hops[10]? = some h → clientDo (cmdCfg f).redirects 1 hops fin = .err (h.stopPrefix ++ stoppedText 10)) := by
+  have : (cmdCfg f).redirects = some 10 := by unfold cmdCfg; rw [hf]
+  rw [this]
+  exact ⟨fun hl => (redirect_outcome 10 hops fin).2.2.1 (by omega) (by omega),
+         fun h hh => (redirect_outcome 10 hops fin).2.2.2.1 (by omega) h (by simpa using hh)⟩
+
+example : (cmdCfg {}).redirects = some 10 ∧ (cmdCfg {}).maxBody = -1 ∧ (cmdCfg {}).name = [] := by decide
+
+/-- bytes-out does not depend on how many redirects were followed (or on anything else the
+exchange does once a response is obtained): it is the length of the target's body. -/
+theorem bytes_out_independent_of_redirects (t : Target) (u : UrlInfo) (cfg : Cfg) (seq seq' : Nat) (ex ex' : Exchange)
+    (req0 : RequestSeen) (r r' : Resp) (h : request t u = .ok req0)
+    (hd : clientDo cfg.redirects 1 ex.hops ex.final = .resp r)
+    (hd' : clientDo cfg.redirects 1 ex'.hops ex'.final = .resp r') (hlen : t.body.length < two64) :
+    (hit t u cfg seq ex).res.bytesOut = (hit t u cfg seq' ex').res.bytesOut := by
+  rw [bytes_out_eq_len_request_body t u cfg seq ex req0 r h hd hlen,
+      bytes_out_eq_len_request_body t u cfg seq' ex' req0 r' h hd' hlen]
+
+/-! ### declared length, HEAD -/
+
+/-- `hit` never looks at `Response.ContentLength`: whatever length the transport declares
+(unknown, exact, or — for HEAD — the length of an entity that is not sent), the outcome is the same. -/
+theorem result_independent_of_declared_length (cfg : Cfg) (res0 : Result) (req : RequestSeen) (r : Resp) (chunks : List Nat) (d : Int) :
+    consume cfg res0 req { r with declared := d } chunks = consume cfg res0 req r chunks := rfl
+
+/-- The answer to a HEAD request (also 204/304): no body is delivered although a length may be
+declared. The exchange completes: empty captured body, bytes-in 0, the response's code and
+headers, error by the status alone; the body is still read to EOF and closed. -/
+theorem bodyless_response_completes (cfg : Cfg) (res0 : Result) (req : RequestSeen) (r : Resp) (chunks : List Nat)
+    (hb : r.body = []) (hf : r.failAfter = none) :
+    let o := consume cfg res0 req r chunks
+    o.res.body = [] ∧ o.res.bytesIn = 0 ∧ o.res.code = toUint16 r.status ∧ o.res.headers = some r.header ∧
+    o.res.error = (if toUint16 r.status < 200 ∨ toUint16 r.status ≥ 400 then r.statusText else []) ∧
+    DrainedAndClosed 0 Ev.eof o.bodyLog := by
+  intro o
+  obtain ⟨_, _, _, hbody, hlog, _, _, _, _, hbi, _, _, hok⟩ := aux_consume cfg res0 req r chunks
+  have hav : avail r = [] := by unfold avail; rw [hf, hb]
+  have hcap : capture cfg.maxBody (avail r) = [] := by rw [hav]; unfold capture; split <;> simp
+  have hfa : r.failAfter.isSome = false := by rw [hf]; rfl
+  obtain ⟨h1, h2, h3⟩ := hok hfa
+  rw [hav, hfa] at hlog
+  exact ⟨by rw [hbody, hcap], by rw [hbi, hcap]; rfl, h1, h2, h3, hlog⟩
+
+example : (consume witnessCfg (base witnessTarget witnessCfg 0) (inject witnessCfg 0
+      { method := [72, 69, 65, 68], url := [], host := [], body := none, contentLength := 0, transferEncoding := [], header := [] })
+    { status := 200, statusText := [50, 48, 48], header := [], body := [], failAfter := none, readErr := [101],
+      endWithData := false, declared := 1000 } []).bodyLog = [.eof, .eof, .close] := by decide
+
+/-! ### headers through `Target.Request` -/
+
+/-- "headers with their original letter case": `Target.Request` copies the header map entry by
+entry by plain map assignment — same keys byte for byte (no canonicalisation), same values in
+the same order; the request's URL, body and length come from the target alone. -/
+theorem target_request_copies_headers_verbatim (t : Target) (u : UrlInfo) (req0 : RequestSeen) (h : request t u = .ok req0) :
+    req0.header = t.header ∧ req0.transferEncoding = [] ∧ req0.contentLength = t.body.length :=
+  let ⟨_, _, _, _, h5, h6, h7⟩ := aux_request_ok t u req0 h
+  ⟨h7, h6, h5⟩
+
+/-- only the exact key `Host` sets the request host: a target without that key (it may well have
+`host` or `HOST`) keeps the URL's host -/
+theorem host_only_from_exact_key (t : Target) (u : UrlInfo) (req0 : RequestSeen) (h : request t u = .ok req0)
+    (hk : hLookup t.header keyHost = none) : req0.host = u.host := by
+  rw [(aux_request_ok t u req0 h).2.2.1]
+  have : hGet t.header keyHost = [] := by unfold hGet; rw [hk]
+  rw [this]; simp
+
+example : hLookup [(([104, 111, 115, 116] : Bytes), [[120]])] keyHost = none := by decide   -- "host" is not "Host"
+
+theorem aux_hSet_absent (h : Header) (k v : Bytes) (hk : hLookup h k = none) : hSet h k v = h ++ [(k, [v])] := by
+  induction h with
+  | nil => rfl
+  | cons e r ih =>
+    obtain ⟨k', vs⟩ := e
+    unfold hLookup at hk
+    by_cases hkk : k' = k
+    · rw [if_pos hkk] at hk; cases hk
+    · rw [if_neg hkk] at hk
+      unfold hSet
+      rw [if_neg hkk, ih hk]; rfl
+
+/-- the header map handed to the transport, exactly: for an unnamed attack and a target that
+does not itself use the sequence header's name, the target's entries untouched, then the one
+injected entry -/
+theorem request_header_exact (t : Target) (u : UrlInfo) (cfg : Cfg) (seq : Nat) (ex : Exchange) (rq : RequestSeen)
+    (hrq : (hit t u cfg seq ex).req = some rq) (hname : cfg.name = []) (hk : hLookup t.header keySeq = none) :
+    rq.header = t.header ++ [(keySeq, [Duration.fmtNat seq])] := by
+  obtain ⟨req0, h, hrq'⟩ := aux_req_seen t u cfg seq ex rq hrq
+  subst hrq'
+  have h7 := (aux_request_ok t u req0 h).2.2.2.2.2.2
+  show hSet (if cfg.name ≠ [] then hSet req0.header keyAttack cfg.name else req0.header) keySeq (Duration.fmtNat seq) = _
+  rw [if_neg (by simp [hname]), h7]
+  exact aux_hSet_absent t.header keySeq _ hk
+
+/-! ### successive hits of one attack -/
+
+/-- Calls of `hit` on one attack are independent of each other except for the sequence counter:
+the i-th call (from 0) behaves exactly like a single hit with sequence number
+`(start + i) mod 2^64` — result, request (incl. its `X-Vegeta-Seq`), body handling. -/
+theorem hit_sequence (cfg : Cfg) : ∀ (calls : List Call) (start i : Nat) (c : Call), start < two64 → calls[i]? = some c →
+    (hitMany cfg start calls)[i]? = some (callOut cfg ((start + i) % two64) c) ∧
+    (hitMany cfg start calls).length = calls.length := by
+  intro calls
+  induction calls with
+  | nil => intro start i c _ h; simp at h
+  | cons a r ih =>
+    intro start i c hs h
+    have hlen : (hitMany cfg start (a :: r)).length = (a :: r).length := by
+      simp only [hitMany, List.length_cons]
+      cases r with
+      | nil => simp [hitMany]
+      | cons b r' => exact congrArg (· + 1) (ih ((start + 1) % two64) 0 b (Nat.mod_lt _ (by unfold two64; omega)) (by simp)).2
+    refine ⟨?_, hlen⟩
+    cases i with
+    | zero =>
+      simp at h; subst h
+      simp [hitMany, Nat.mod_eq_of_lt hs]
+    | succ i =>
+      have := (ih ((start + 1) % two64) i c (Nat.mod_lt _ (by unfold two64; omega)) (by simpa using h)).1
+      simp only [hitMany, List.getElem?_cons_succ, this]
+      congr 2
+      rw [Nat.mod_add_mod]; congr 1; omega
+
+/-- the sequence number wraps like the `uint64` it is -/
+example : ((hitMany witnessCfg (two64 - 1) [.noTarget [101], .noTarget [101]]).map (·.res.seq)) = [two64 - 1, 0] := by decide
+
+
+/-! ### facts regenerated from the source (go/ast)
+
+The statements the model of `hit`, `Redirects`, `Target.Request` and of the command's wiring was
+written from; they break (and force the model to be revisited) when that code changes shape —
+e.g. when the read path starts consulting `Response.ContentLength`, or `Redirects` special-cases
+a value. -/
+
+/-- the constants and the three cases of the `CheckRedirect` closure; the option does nothing
+else than remember `n` and install that closure -/
+theorem facts_redirect_policy :
+    Vegeta.Extracted.c06DefaultRedirects = [49, 48] ∧ Vegeta.Extracted.c06NoFollow = [45, 49] ∧
+    Vegeta.Extracted.c06RedirectsOptionStmts = [ [97, 46, 114, 101, 100, 105, 114, 101, 99, 116, 115, 32, 61, 32, 110], [97, 46, 99, 108, 105, 101, 110, 116, 46, 67, 104, 101, 99, 107, 82, 101, 100, 105, 114, 101, 99, 116, 32, 61, 32, 102, 117, 110, 99] ] ∧
+    Vegeta.Extracted.c06RedirectCases =
+      [ [110, 32, 61, 61, 32, 78, 111, 70, 111, 108, 108, 111, 119, 32, 61, 62, 32, 114, 101, 116, 117, 114, 110, 32, 104, 116, 116, 112, 46, 69, 114, 114, 85, 115, 101, 76, 97, 115, 116, 82, 101, 115, 112, 111, 110, 115, 101],   -- n == NoFollow => return http.ErrUseLastResponse
+        [110, 32, 60, 32, 108, 101, 110, 40, 118, 105, 97, 41, 32, 61, 62, 32, 114, 101, 116, 117, 114, 110, 32, 102, 109, 116, 46, 69, 114, 114, 111, 114, 102, 40, 34, 115, 116, 111, 112, 112, 101, 100, 32, 97, 102, 116, 101, 114, 32, 37, 100, 32, 114, 101, 100, 105, 114, 101, 99, 116, 115, 34, 44, 32, 110, 41],   -- n < len(via) => return fmt.Errorf("stopped after %d redirects", n)
+        [100, 101, 102, 97, 117, 108, 116, 32, 61, 62, 32, 114, 101, 116, 117, 114, 110, 32, 110, 105, 108] ]   -- default => return nil
+    := by decide
+
+/-- `hit` after `client.Do`: statement by statement what `consume` models, and no mention of the
+response's `ContentLength` -/
+theorem facts_hit_read_path :
+    Vegeta.Extracted.c06HitResponseContentLengthMentions = 0 ∧
+    Vegeta.Extracted.c06HitReadPath =
+      [ [105, 102, 32, 101, 114, 114, 32, 33, 61, 32, 110, 105, 108, 32, 123, 32, 114, 101, 116, 117, 114, 110, 32, 38, 114, 101, 115, 32, 125],   -- if err != nil { return &res }
+        [100, 101, 102, 101, 114, 32, 114, 46, 66, 111, 100, 121, 46, 67, 108, 111, 115, 101, 40, 41],   -- defer r.Body.Close()
+        [98, 111, 100, 121, 32, 58, 61, 32, 105, 111, 46, 82, 101, 97, 100, 101, 114, 40, 114, 46, 66, 111, 100, 121, 41],   -- body := io.Reader(r.Body)
+        [105, 102, 32, 97, 46, 109, 97, 120, 66, 111, 100, 121, 32, 62, 61, 32, 48, 32, 123, 32, 98, 111, 100, 121, 32, 61, 32, 105, 111, 46, 76, 105, 109, 105, 116, 82, 101, 97, 100, 101, 114, 40, 114, 46, 66, 111, 100, 121, 44, 32, 97, 46, 109, 97, 120, 66, 111, 100, 121, 41, 32, 125],   -- if a.maxBody >= 0 { body = io.LimitReader(r.Body, a.maxBody) }
+        [105, 102, 32, 114, 101, 113, 46, 67, 111, 110, 116, 101, 110, 116, 76, 101, 110, 103, 116, 104, 32, 33, 61, 32, 45, 49, 32, 123, 32, 114, 101, 115, 46, 66, 121, 116, 101, 115, 79, 117, 116, 32, 61, 32, 117, 105, 110, 116, 54, 52, 40, 114, 101, 113, 46, 67, 111, 110, 116, 101, 110, 116, 76, 101, 110, 103, 116, 104, 41, 32, 125],   -- if req.ContentLength != -1 { res.BytesOut = uint64(req.ContentLength) }
+        [114, 101, 115, 46, 66, 111, 100, 121, 44, 32, 101, 114, 114, 32, 61, 32, 105, 111, 46, 82, 101, 97, 100, 65, 108, 108, 40, 98, 111, 100, 121, 41],   -- res.Body, err = io.ReadAll(body)
+        [114, 101, 115, 46, 66, 121, 116, 101, 115, 73, 110, 32, 61, 32, 117, 105, 110, 116, 54, 52, 40, 108, 101, 110, 40, 114, 101, 115, 46, 66, 111, 100, 121, 41, 41],   -- res.BytesIn = uint64(len(res.Body))
+        [105, 102, 32, 101, 114, 114, 32, 33, 61, 32, 110, 105, 108, 32, 123, 32, 114, 101, 116, 117, 114, 110, 32, 38, 114, 101, 115, 32, 125, 32, 101, 108, 115, 101, 32, 105, 102, 32, 95, 44, 32, 101, 114, 114, 32, 61, 32, 105, 111, 46, 67, 111, 112, 121, 40, 105, 111, 46, 68, 105, 115, 99, 97, 114, 100, 44, 32, 114, 46, 66, 111, 100, 121, 41, 59, 32, 101, 114, 114, 32, 33, 61, 32, 110, 105, 108, 32, 123, 32, 114, 101, 116, 117, 114, 110, 32, 38, 114, 101, 115, 32, 125],   -- if err != nil { return &res } else if _, err = io.Copy(io.Discard, r.Body); err != nil { return &res }
+        [105, 102, 32, 114, 101, 115, 46, 67, 111, 100, 101, 32, 61, 32, 117, 105, 110, 116, 49, 54, 40, 114, 46, 83, 116, 97, 116, 117, 115, 67, 111, 100, 101, 41, 59, 32, 114, 101, 115, 46, 67, 111, 100, 101, 32, 60, 32, 50, 48, 48, 32, 124, 124, 32, 114, 101, 115, 46, 67, 111, 100, 101, 32, 62, 61, 32, 52, 48, 48, 32, 123, 32, 114, 101, 115, 46, 69, 114, 114, 111, 114, 32, 61, 32, 114, 46, 83, 116, 97, 116, 117, 115, 32, 125],   -- if res.Code = uint16(r.StatusCode); res.Code < 200 || res.Code >= 400 { res.Error = r.Status }
+        [114, 101, 115, 46, 72, 101, 97, 100, 101, 114, 115, 32, 61, 32, 114, 46, 72, 101, 97, 100, 101, 114],   -- res.Headers = r.Header
+        [114, 101, 116, 117, 114, 110, 32, 38, 114, 101, 115] ]   -- return &res
+    := by decide
+
+/-- `Target.Request`: nil body for an empty one, header entries copied under their own keys, the
+exact key `Host` overriding the host -/
+theorem facts_target_request :
+    Vegeta.Extracted.c06TargetRequestStmts =
+      [ [105, 102, 32, 108, 101, 110, 40, 116, 46, 66, 111, 100, 121, 41, 32, 33, 61, 32, 48, 32, 123, 32, 98, 111, 100, 121, 32, 61, 32, 98, 121, 116, 101, 115, 46, 78, 101, 119, 82, 101, 97, 100, 101, 114, 40, 116, 46, 66, 111, 100, 121, 41, 32, 125],   -- if len(t.Body) != 0 { body = bytes.NewReader(t.Body) }
+        [105, 102, 32, 101, 114, 114, 32, 33, 61, 32, 110, 105, 108, 32, 123, 32, 114, 101, 116, 117, 114, 110, 32, 110, 105, 108, 44, 32, 101, 114, 114, 32, 125],   -- if err != nil { return nil, err }
+        [114, 97, 110, 103, 101, 32, 116, 46, 72, 101, 97, 100, 101, 114],   -- range t.Header
+        [114, 101, 113, 46, 72, 101, 97, 100, 101, 114, 91, 107, 93, 32, 61, 32, 109, 97, 107, 101, 40, 91, 93, 115, 116, 114, 105, 110, 103, 44, 32, 108, 101, 110, 40, 118, 115, 41, 41],   -- req.Header[k] = make([]string, len(vs))
+        [99, 111, 112, 121, 40, 114, 101, 113, 46, 72, 101, 97, 100, 101, 114, 91, 107, 93, 44, 32, 118, 115, 41],   -- copy(req.Header[k], vs)
+        [105, 102, 32, 104, 111, 115, 116, 32, 58, 61, 32, 114, 101, 113, 46, 72, 101, 97, 100, 101, 114, 46, 71, 101, 116, 40, 34, 72, 111, 115, 116, 34, 41, 59, 32, 104, 111, 115, 116, 32, 33, 61, 32, 34, 34, 32, 123, 32, 114, 101, 113, 46, 72, 111, 115, 116, 32, 61, 32, 104, 111, 115, 116, 32, 125] ]   -- if host := req.Header.Get("Host"); host != "" { req.Host = host }
+    := by decide
+
+/-- the command: `Redirects`, `MaxBody`, `ChunkedBody` are always applied with the flag values, the
+attack is named by `-name`, and the flags default to 10 redirects, unlimited body, not chunked,
+no name (`cmdCfg`, `AttackFlags`) -/
+theorem facts_command_wiring :
+    Vegeta.Extracted.c06CommandWiring =
+      [ [82, 101, 100, 105, 114, 101, 99, 116, 115, 40, 111, 112, 116, 115, 46, 114, 101, 100, 105, 114, 101, 99, 116, 115, 41],   -- Redirects(opts.redirects)
+        [77, 97, 120, 66, 111, 100, 121, 40, 111, 112, 116, 115, 46, 109, 97, 120, 66, 111, 100, 121, 41],   -- MaxBody(opts.maxBody)
+        [67, 104, 117, 110, 107, 101, 100, 66, 111, 100, 121, 40, 111, 112, 116, 115, 46, 99, 104, 117, 110, 107, 101, 100, 41] ]   -- ChunkedBody(opts.chunked)
+    ∧ Vegeta.Extracted.c06CommandAttackName = [111, 112, 116, 115, 46, 110, 97, 109, 101] ∧
+    Vegeta.Extracted.c06DefaultMaxBody = [105, 110, 116, 54, 52, 40, 45, 49, 41] ∧
+    Vegeta.Extracted.c06CommandFlagDefaults =
+      [ [110, 97, 109, 101, 32, 38, 111, 112, 116, 115, 46, 110, 97, 109, 101, 32, 34, 34],   -- name &opts.name ""
+        [99, 104, 117, 110, 107, 101, 100, 32, 38, 111, 112, 116, 115, 46, 99, 104, 117, 110, 107, 101, 100, 32, 102, 97, 108, 115, 101],   -- chunked &opts.chunked false
+        [114, 101, 100, 105, 114, 101, 99, 116, 115, 32, 38, 111, 112, 116, 115, 46, 114, 101, 100, 105, 114, 101, 99, 116, 115, 32, 118, 101, 103, 101, 116, 97, 46, 68, 101, 102, 97, 117, 108, 116, 82, 101, 100, 105, 114, 101, 99, 116, 115],   -- redirects &opts.redirects vegeta.DefaultRedirects
+        [109, 97, 120, 45, 98, 111, 100, 121, 32, 118, 101, 103, 101, 116, 97, 46, 68, 101, 102, 97, 117, 108, 116, 77, 97, 120, 66, 111, 100, 121] ]   -- max-body vegeta.DefaultMaxBody
+    := by decide
+
 
 end Vegeta.Props.C06
